@@ -2309,7 +2309,7 @@ def glom(target, spec, **kwargs):
         else:  # wrapping failed, fall back to default behavior
             raise
 
-    if err:
+    if err is not None:  # (not truthiness: an exception object may be falsy)
         raise err
     return ret
 
